@@ -103,7 +103,7 @@ def curve_trace(sc):
 def exact_scenarios(tier, rng):
     zmax = 18
     cols = []
-    for n in (2, 3, 4) if tier == "thorough" else (2, 3):
+    for n in (1, 2, 3, 4) if tier == "thorough" else (1, 2, 3):
         allc = list(itertools.combinations(range(-zmax, 0, 2), n))
         rng.shuffle(allc)
         cols += [list(c) for c in allc[: (400 if tier == "thorough" else 120)]]
@@ -162,5 +162,5 @@ def run(tier, seed):
                 "theta_b x Vstretching x Vtransform x h (+ a shallower neighbour cell), Grid built from a file or from Vinfo; non-trivial = "
                 "distinct columns + distinct parameter points")
     rep.assumptions = ["transcendental curves are checked on a parameter lattice only (DESIGN 7)", "hc <= h for the generated set-ups",
-                       "N = 1 is exercised for curves and level depths; the lookup needs two levels (see C17 for N = 1)"]
+                       "with a single level (N = 1) both levels of the pair are that level"]
     return rep
